@@ -331,7 +331,10 @@ func driveDestShapes(c *driverCtx) {
 	raw = append(raw, "hello"...)
 	raw = appendVar(raw, -99)
 	emit := func(key string, ev map[string]any) {
-		ev["op"], ev["schema"], ev["bytes"] = "dest_decode", sn, byteList(raw)
+		ev["op"], ev["schema"] = "dest_decode", sn
+		if _, ok := ev["bytes"]; !ok {
+			ev["bytes"] = byteList(raw)
+		}
 		c.rec.NewCase()
 		c.rec.Emit("C05|dest|"+key, ev)
 	}
@@ -374,6 +377,27 @@ func driveDestShapes(c *driverCtx) {
 		})
 		emit("readfile|not-a-struct|"+reflect.TypeOf(out).String(), map[string]any{"shape": "not-a-struct", "built": err == nil && p == "", "buildpanic": p, "err": errString(err),
 			"rout": "ok", "canary": err != nil, "untouched": true, "value": node{"k": "nil"}, "judgeValue": false})
+	}
+	// (a2) two different struct types that print the same (function-local types of the same name), read one after the
+	// other from files with byte-identical schemas: whatever the library remembers about a destination type must be
+	// keyed by the type itself
+	{
+		t1, t2 := sameNameType1(), sameNameType2()
+		var raw2 []byte // values that fit the narrow fields of the second type
+		raw2 = appendVar(raw2, 1234)
+		raw2 = appendVar(raw2, 5)
+		raw2 = append(raw2, "hello"...)
+		raw2 = appendVar(raw2, -99)
+		for round, t := range []reflect.Type{t1, t2, t1} {
+			dest, guardsOK := guardedValue(t)
+			file := buildContainer([]byte(sj), "null", true, []byte("0123456789abcdef"), [][2]any{{1, raw2}})
+			var err error
+			p := catch(func() {
+				err = avro.ReadFile(makeReader("bytes", file), dest.Addr().Interface(), func(val unsafe.Pointer, rb *avro.ResourceBank) error { return nil })
+			})
+			emit(fmt.Sprintf("readfile|same-type-name|round%d", round), map[string]any{"shape": "same-type-name", "built": err == nil && p == "", "buildpanic": p, "err": errString(err),
+				"rout": map[bool]string{true: "ok", false: "err"}[err == nil], "canary": guardsOK(), "untouched": true, "value": safeProject(dest), "judgeValue": true, "bytes": byteList(raw2)})
+		}
 	}
 	// (b) fields the schema could only reach through an embedded struct: either they are not matched at all or
 	// they are stored where they live; the fields the schema does not name keep their content
@@ -420,4 +444,24 @@ func driveDestShapes(c *driverCtx) {
 		c.rec.NewCase()
 		c.rec.Emit("C05|dest|embedded|"+t.Name(), ev)
 	}
+}
+
+// two distinct types, both "main.row" to fmt and reflect.Type.String(), with different layouts
+func sameNameType1() reflect.Type {
+	type row struct {
+		A int64  `json:"a"`
+		S string `json:"s"`
+		B int64  `json:"b"`
+	}
+	return reflect.TypeOf(row{})
+}
+
+func sameNameType2() reflect.Type {
+	type row struct {
+		B int32 `json:"b"`
+		A int16 `json:"a"`
+		X [3]byte
+		S string `json:"s"`
+	}
+	return reflect.TypeOf(row{})
 }
